@@ -113,6 +113,15 @@ func canon(v ssa.Value, onPhi map[ssa.Value]bool, cross bool) ssa.Value {
 			if x.Op != token.MUL {
 				return v
 			}
+			if fa, isFA := x.X.(*ssa.FieldAddr); isFA && cross {
+				// a field of a small state struct built once (composite literal) and never
+				// written again: the value it was built with
+				if fv := constructedFieldValue(fa, onPhi); fv != nil {
+					v = fv
+					continue
+				}
+				return v
+			}
 			c := cellOf(x.X)
 			al, ok := c.(*ssa.Alloc)
 			if !ok {
@@ -704,5 +713,68 @@ func BoundMethod(v ssa.Value) *ssa.Function {
 			}
 		}
 	})
-	return out
+	if out != nil || len(w.FreeVars) != 1 || w.Prog == nil {
+		return out
+	}
+	// the wrapper's body is not materialised: look the method up on the receiver type
+	recv := w.FreeVars[0].Type()
+	name := strings.TrimSuffix(w.Name(), "$bound")
+	var pkg *types.Package
+	t := recv
+	if p, ok := t.(*types.Pointer); ok {
+		t = p.Elem()
+	}
+	if n, ok := types.Unalias(t).(*types.Named); ok {
+		pkg = n.Obj().Pkg()
+	}
+	if sel := w.Prog.MethodSets.MethodSet(recv).Lookup(pkg, name); sel != nil {
+		return w.Prog.MethodValue(sel)
+	}
+	return nil
 }
+
+// constructedFieldValue: fa addresses field F of an object that (after cross-function
+// resolution) is a composite literal allocation; when that allocation is the only place
+// where F is ever stored for this object, the stored value is returned.
+func constructedFieldValue(fa *ssa.FieldAddr, onPhi map[ssa.Value]bool) ssa.Value {
+	base := canon(fa.X, onPhi, true)
+	al, ok := base.(*ssa.Alloc)
+	if !ok || al.Referrers() == nil {
+		return nil
+	}
+	var val ssa.Value
+	n := 0
+	for _, r := range *al.Referrers() {
+		f2, ok := r.(*ssa.FieldAddr)
+		if !ok || f2.Field != fa.Field || f2.Referrers() == nil {
+			continue
+		}
+		for _, rr := range *f2.Referrers() {
+			if st, ok := rr.(*ssa.Store); ok && st.Addr == f2 {
+				n++
+				val = st.Val
+			}
+		}
+	}
+	if n != 1 {
+		return nil
+	}
+	// no other writer of this field anywhere (through another pointer to the object)
+	pt, ok := fa.X.Type().Underlying().(*types.Pointer)
+	if !ok {
+		return nil
+	}
+	named, _ := types.Unalias(pt.Elem()).(*types.Named)
+	if named == nil || named.Obj().Exported() || fieldWritersOutsideLiterals == nil {
+		return nil
+	}
+	st, ok := named.Underlying().(*types.Struct)
+	if !ok || fieldWritersOutsideLiterals(named, st.Field(fa.Field).Name()) {
+		return nil
+	}
+	return val
+}
+
+// fieldWritersOutsideLiterals (installed by Load) reports whether a field of a struct
+// type is stored anywhere except in composite literals.
+var fieldWritersOutsideLiterals func(t *types.Named, field string) bool
